@@ -128,7 +128,9 @@ class RecEnv:
         return self
 
     def _tag(self, k):
-        return int(k) if self.int_obs else tag_obs(k)
+        if self.int_obs:  # small, unique ints usable as table indices: steps 1..19, resets 20..
+            return int(k) if k < 1000 else int(20 + (k - 1000))
+        return tag_obs(k)
 
     def reset(self, *, seed=None, options=None):
         self.n_resets += 1
